@@ -1285,6 +1285,14 @@ pub fn cases(tier: Tier) -> Vec<Case> {
         add("choice", "Cho", cp, "c:z:NULL".into(), Val::Choice("c".into(), Box::new(Val::Choice("z".into(), Box::new(Val::Null)))), "depth=2".into());
         add("choice", "Cho", cp, "c:m:7".into(), Val::Choice("c".into(), Box::new(Val::Choice("m".into(), Box::new(Val::Int("7".into()))))), "depth=2-int".into());
         add("sequence", "Sq", cp, "{ p 1, q TRUE, r z:NULL }".into(), Val::Seq(vec![Val::Int("1".into()), Val::Bool(true), Val::Choice("z".into(), Box::new(Val::Null))]), "3-members".into());
+        // SET values may give the components in any order (X.680 27.? / 25.18: named values); the value is the same
+        {
+            let sp = "St ::= SET { count INTEGER, enabled BOOLEAN, mode Cho2 }\nCho2 ::= CHOICE { z NULL, m INTEGER (0..9) }";
+            let want = Val::Seq(vec![Val::Int("5".into()), Val::Bool(true), Val::Choice("m".into(), Box::new(Val::Int("2".into())))]);
+            for (lab, txt) in [("declared-order", "{ count 5, enabled TRUE, mode m:2 }"), ("rotated", "{ enabled TRUE, mode m:2, count 5 }"), ("reversed", "{ mode m:2, enabled TRUE, count 5 }"), ("swapped", "{ enabled TRUE, count 5, mode m:2 }")] {
+                add("set-value", "St", sp, txt.into(), want.clone(), format!("set-value:{lab}"));
+            }
+        }
         add("sequence", "Sq", cp, "{ p -3, q FALSE, r m:2 }".into(), Val::Seq(vec![Val::Int("-3".into()), Val::Bool(false), Val::Choice("m".into(), Box::new(Val::Int("2".into())))]), "3-members-b".into());
         // SEQUENCE values over components with DEFAULTs: given explicitly (equal to and different from the default) and omitted
         let dp = "SqD ::= SEQUENCE { a INTEGER DEFAULT 5, b BOOLEAN DEFAULT TRUE, c INTEGER (0..255) DEFAULT 7, d BOOLEAN }";
